@@ -152,7 +152,7 @@ func (srv *Srv) flush(req *SrvReq) {
 	conn.Lock()
 	r := conn.reqs[tag]
 	if r != nil {
-		req.flushreq = r.flushreq
+		req.flushnext = r.flushreq
 		r.flushreq = req
 	}
 	conn.Unlock()
@@ -166,6 +166,11 @@ func (srv *Srv) flush(req *SrvReq) {
 
 	r.Lock()
 	status := r.status
+	if r.Tc.Type == Tflush {
+		/* every Tflush gets its Rflush: a flush is never cancelled, it
+		 * finishes on its own and the flush of it is answered afterwards */
+		status |= reqWork
+	}
 	if (status & (reqWork | reqSaved)) == 0 {
 		/* the request is not worked on yet */
 		r.status |= reqFlush
